@@ -123,6 +123,20 @@ func c15EmitListenFacts(x0 *X) {
 	if nsw == 0 {
 		x.fail("package main: no switch over a listener's .Proto found")
 	}
+	// main hands the process's own arguments and environment to config.Load (and nothing else calls it)
+	loads, loadsOK := 0, 0
+	for _, f := range x.files(".") {
+		ast.Inspect(f, func(n ast.Node) bool {
+			if c, ok := n.(*ast.CallExpr); ok && x.src(c.Fun) == "config.Load" {
+				loads++
+				if len(c.Args) == 2 && x.src(c.Args[0]) == "os.Args" && x.src(c.Args[1]) == "os.Environ()" {
+					loadsOK++
+				}
+			}
+			return true
+		})
+	}
+	x0.defBool("mainLoadsArgsAndEnviron", loads >= 1 && loads == loadsOK)
 	x0.defStrList("listenProtosHandled", handled)
 	x0.defNat("listenProtoSwitches", uint64(nsw))
 	x0.defBool("listenProtoDefaultFatal", fatal)
